@@ -54,6 +54,10 @@ def rec(rid, prop, conv, keep, src, dst, res, anom, cls_ok=True, what=""):
 
 def network(j, g, rng, attrs=True):
     H = obscore.realise(j, g, rng, shuffle=True)
+    if attrs and rng.random() < 0.25:  # a network without network attributes, written after ones that have some
+        for n in list(H.nodes)[:1]:
+            H.nodes[n]["color"] = 3
+        return H
     if attrs:
         for n in list(H.nodes)[:2]:
             H.nodes[n]["color"] = 3
@@ -325,6 +329,15 @@ def disk_records(tag, j, g, rng, tmpdir):
         back = xgi.read_hif_collection(os.path.join(d, "c_collection_information.json"))
         return back["a"]
     add("hif_collection", "everything", hif_coll)
+
+    def hif_coll_second():  # the member written after H carries no attribute at all
+        d = os.path.join(tmpdir, f"{tag}.coll2")
+        os.makedirs(d, exist_ok=True)
+        xgi.write_hif_collection({"a": H, "b": xgi.Hypergraph([[N0, N1]])}, d, collection_name="c")
+        return xgi.read_hif_collection(os.path.join(d, "c_collection_information.json"))["b"]
+    N0, N1 = g.node(0), g.node(1)
+    bsrc, _ = hg.proj(xgi.Hypergraph([[N0, N1]]), g)
+    add("hif_collection(second member)", "everything", hif_coll_second, source=bsrc)
     if not mixed_edge_kinds:
         def js(net, name):
             xgi.write_json(net, p(name))
@@ -381,7 +394,7 @@ def disk_records(tag, j, g, rng, tmpdir):
         X = obscore.realise(j, gx, rng, shuffle=False)
         xsrc, xa = hg.proj(X, gx)
         xpos = MapGamma(gx, edge_map={k: e for k, e in enumerate(xsrc["edges"])})
-        for dname, delim in (("comma", ","), ("bar", "|")):
+        for dname, delim in (("comma", ","), ("bar", "|"), ("tab", "\t")):
             def elx(dname=dname, delim=delim):
                 xgi.write_edgelist(X, p(f"elx.{dname}"), delimiter=delim)
                 return xgi.read_edgelist(p(f"elx.{dname}"), delimiter=delim)
